@@ -75,6 +75,10 @@ def register(run, prop):
         D.ob_initial_values(run, "O%d.iv" % n, owners, why, floor=len(owners), skip=SKIP)
     if prop in MODS:
         D.ob_results_not_discarded(run, "O%d.res" % n, [m for m in MODS[prop] if not m.endswith(".rs")], WHY_R)
+        D.ob_no_globals(run, "O%d.glob" % n, [m for m in MODS[prop] if not m.endswith(".rs")],
+                        "every node (and every instance in one process) must behave as a function of its inputs: a process-wide cache or registry couples instances and makes results depend on construction order")
+        D.ob_no_new_truncation(run, "O%d.cut" % n, [m for m in MODS[prop] if not m.endswith(".rs")],
+                               "votes, certificates, slots, shreds, datagrams and validators are processed one by one, all of them: what lies behind a new cut is silently never handled")
     if prop in DELIVERY:
         W.ob_event_delivery(run, "O%d.w3" % n, DELIVERY[prop], WHY_D)
     if prop in ("C01", "C03", "C04", "C18"):
@@ -87,6 +91,13 @@ def register(run, prop):
         C09.ob_threshold_validation(run, "O%d.thr" % n)
         C09.ob_cert_try_new(run, "O%d.cert" % n)
         C09.ob_construct(run, "O%d.con" % n)
+    if prop in ("C03", "C04", "C05", "C06", "C07", "C08", "C18"):
+        # a vote counts as the kind it was signed as: the signed bytes cover the kind tag (skip cannot be relabelled final, ..)
+        from . import C09
+        C09.ob_kind_binding(run, "O%d.kind" % n)
+    if prop in ("C10", "C16", "C19"):
+        W.ob_receive_cancel_safe(run, "O%d.w4" % n, "the node's loops select! over several receive() futures: whenever another branch is ready first the pending receive is dropped - "
+                                 "datagrams it had already drained from the socket but not yet queued are lost for good (shreds never forwarded, votes never counted)")
     if prop in WIRING:
         parts, with_run = WIRING[prop]
         if parts:
